@@ -323,7 +323,7 @@ def replay_case(case: dict, variant: int, mode: str) -> dict:
             if ev == "alias" and obj.name in PRELUDE_NAMES and r.prelude_span[0] <= (ln or 0) <= r.prelude_span[1]:
                 continue
             abstract_events.append({"e": ev, "l": linemap.get(ln, -1), "n": obj.name})
-    if abstract_events != case["events"]:
+    if abstract_events != [{"e": e["e"], "l": e["l"], "n": e["n"]} for e in case["events"]]:
         out["drift"].append(f"event trace differs from the model: real {_short(abstract_events)} model {_short(case['events'])} for {prog}")
 
     # ---- conformance of the transcription (drift) --------------------------------------------------------------
@@ -441,6 +441,8 @@ def _attr_doc(chain, info, name):
 def _doc_cause(got, chain, info, prog, line, name):
     if got is None:
         return "none"
+    if got.startswith("Stray text"):
+        return "docstring-across-else"
     # which written docstring is it?
     src = [i for i, inf in info.items() if inf["doc"] and expected_doc(inf["doc"][0]) == got]
     if not src:
@@ -448,8 +450,8 @@ def _doc_cause(got, chain, info, prog, line, name):
     i = src[0]
     if i in chain and info[i]["k"] in ("def", "init", "class"):
         return "forwarded-from-non-attribute"
-    if prog[line - 1][1] == "multi" and i not in chain:
-        return "multi-target-leak"
+    if i not in chain and any(prog[c - 1][1] == "multi" for c in chain):
+        return "multi-target-leak"      # leaked into this name by an earlier  a = b = ...  (possibly forwarded since)
     return "none"
 
 
